@@ -1,4 +1,7 @@
+import FrappyModel.Client.Cache
+import FrappyModel.Generated.C12
 import FrappyModel.Generated.C20
 import FrappyModel.Node.Logging
 import FrappyModel.Small.Rotate
+import FrappyModel.Spec.C12
 import FrappyModel.Spec.C20
